@@ -4,7 +4,7 @@
    float() and Flow.from_state(compat.migrate_flow(.)) are parameters: every theorem holds for
    all of their behaviours. Flow get_state/from_state are not modelled (oracle only). *)
 From Coq Require Import List Bool Arith NArith ZArith.
-From MV Require Import Base.Bytes Model.Tnet Proofs.TnetBase Proofs.TnetRoundtrip Proofs.TnetReader Proofs.TnetTrunc Proofs.TnetExamples.
+From MV Require Import Base.Bytes Model.Tnet Proofs.TnetBase Proofs.TnetRoundtrip Proofs.TnetReader Proofs.TnetTrunc Proofs.TnetExamples Model.ConnLiterals Gen.ConnectionLiterals Proofs.ConnLiterals.
 Import ListNotations.
 
 (* Codec round trip, all value trees: what dumps writes, load reads back as the same tree with
@@ -101,3 +101,23 @@ Theorem C36_nonvacuous :
   /\ load pf_sample 2 (dumps (mirror sample)) = LValue sample [].
 Proof. exact sample_roundtrips. Qed.
 Print Assumptions C36_nonvacuous.
+
+(* ---- typed connection fields (coretypes/serializable._process Literal check, Model/ConnLiterals.v).
+   The domains are the ones spelled in mitmproxy/connection.py (translated: Gen/ConnectionLiterals.v);
+   the values are pinned independently: everything OpenSSL / aioquic report as TLS version and both
+   transports pass get_state/set_state, so such a connection never makes FlowWriter.add raise. *)
+Theorem C36_reported_tls_versions_serialisable :
+  forall v, In v reported_tls_versions -> opt_literal_ok tls_version_src (Some v) = true.
+Proof. exact reported_tls_versions_accepted. Qed.
+Print Assumptions C36_reported_tls_versions_serialisable.
+
+Theorem C36_reported_transports_serialisable :
+  forall v, In v reported_transports -> literal_ok transport_protocol_src v = true.
+Proof. exact reported_transports_accepted. Qed.
+Print Assumptions C36_reported_transports_serialisable.
+
+(* the annotation and the pinned lists coincide: a drift in either direction breaks this proof *)
+Theorem C36_typed_domains_pinned :
+  tls_version_src = reported_tls_versions /\ transport_protocol_src = reported_transports.
+Proof. exact typed_domains_pinned. Qed.
+Print Assumptions C36_typed_domains_pinned.
